@@ -20,11 +20,13 @@ import (
 	"path/filepath"
 	"sort"
 	"testing"
+	"testing/synctest"
 	"time"
 
 	"github.com/slackhq/nebula"
 	"github.com/slackhq/nebula/cert"
 	"github.com/slackhq/nebula/header"
+	"go.yaml.in/yaml/v3"
 )
 
 type c39World struct {
@@ -328,8 +330,65 @@ func c39Drive(w *c39World, rnd *rand.Rand, steps, tr int, res *vResult) {
 			}
 		}
 	}
+	reloadAt := -1
+	if tr%4 == 2 {
+		reloadAt = 25 + rnd.Intn(30) // the relay is reconfigured: relay.am_relay false (and back on later)
+	}
+	setAmRelay := func(v bool) {
+		st := map[string]any{}
+		for k, val := range w.R.Cfg.Settings {
+			st[k] = val
+		}
+		st["relay"] = map[string]any{"am_relay": v}
+		raw, err := yaml.Marshal(st)
+		if err != nil {
+			panic(err)
+		}
+		if err := w.R.Cfg.ReloadConfigString(string(raw)); err != nil {
+			panic(err)
+		}
+		synctest.Wait()
+		w.inflight = append(w.inflight, w.R.TakeUDP()...)
+		w.lines = append(w.lines, map[string]any{"ev": "Reload", "n": "R", "am": v})
+		res.Hit(fmt.Sprintf("reload:am_relay-%v", v))
+	}
 	for s := 0; s < steps; s++ {
 		r := rnd.Intn(100)
+		if s == reloadAt {
+			// make sure the relay between A and T is in use, reconfigure R, then send over the relay negotiated before
+			send(w.A, w.T.Vpn[0].Addr())
+			for round := 0; round < 12; round++ {
+				for k := 0; k < 40 && len(w.inflight) > 0; k++ {
+					d := w.inflight[0]
+					w.inflight = w.inflight[1:]
+					w.deliver(d)
+				}
+				if _, ok := w.A.Ctrl.VerifProject().Hosts[w.T.Vpn[0].Addr().String()]; ok && len(w.inflight) == 0 {
+					break
+				}
+				w.Advance(100 * time.Millisecond)
+				for _, nd := range w.sorted() {
+					w.local(nd, "tick")
+				}
+			}
+			setAmRelay(false)
+			send(w.A, w.T.Vpn[0].Addr())
+			rest := w.inflight[:0:0]
+			for _, d := range w.inflight {
+				if d.To == w.R.UDP && d.H.Type == header.Message && d.H.Subtype == header.MessageRelay {
+					w.deliver(d)
+					res.Hit("relayed-datagram-while-am_relay-off")
+				} else {
+					rest = append(rest, d)
+				}
+			}
+			w.inflight = append(rest, w.inflight[len(w.inflight):]...)
+			continue
+		}
+		if reloadAt >= 0 && s == reloadAt+40 {
+			setAmRelay(true)
+			continue
+		}
 		switch {
 		case r < 45 && len(w.inflight) > 0:
 			k := 0
